@@ -7,6 +7,7 @@ from ..astutil import (always_leaves, src, guards, flat_guards, calls_in, call_n
                        iter_own_nodes, ancestors, is_within)
 from ..cfg import cfg_of, Prov
 from .. import variants as V
+from .. import kernel
 
 PROPERTY = "C06"
 TITLE = "The subtyping judgement is sound, and exact on concrete class types"
@@ -478,37 +479,13 @@ def r4_bounds(repo):
 
 def r5_structural_equality(repo):
     """is_subtype starts from `other == self`: equality of types must be structural."""
-    obs = []
-    want = {
-        "ParameterizedType": ["type_args", "t_constructor.type_parameters", "name"],
-        "WildCardType": ["variance", "bound"],
-        "TypeParameter": ["name", "variance", "bound"],
-        "SimpleClassifier": ["name", "supertypes"],
-    }
-    for cn, attrs in want.items():
-        c = repo.cls(T + "." + cn)
-        m = c.methods.get("__eq__")
-        if m is None:
-            raise AnalysisError("%s.__eq__ missing" % cn, rule="C06-R5", anchor=c.qualname)
-        o = m.params[1]
-        cmps = [n for n in iter_own_nodes(m.node) if isinstance(n, ast.Compare) and len(n.ops) == 1 and
-                isinstance(n.ops[0], ast.Eq)]
-        direct = set()
-        wrapped = []
-        for cp in cmps:
-            l, r = cp.left, cp.comparators[0]
-            if isinstance(l, ast.Attribute) and isinstance(r, ast.Attribute) and src(l).startswith("self.") and \
-                    src(r).startswith(o + ".") and src(l)[5:] == src(r)[len(o) + 1:]:
-                direct.add(src(l)[5:])
-            elif any(isinstance(x, ast.Call) and call_name(x) in ("str", "get_name", "repr", "format", "hash")
-                     for x in ast.walk(cp)):
-                wrapped.append(src(cp)[:70])
-        missing = [a for a in attrs if a not in direct]
-        obs.append(Ob("C06-R5", "%s.__eq__:structural" % cn, _w(m), not missing and not wrapped,
-                      "%s.__eq__ must compare %s attribute by attribute (self.x == other.x); missing direct comparisons: %s; "
-                      "comparisons through a textual rendering (which prints nested projections ambiguously): %s"
-                      % (cn, attrs, missing, wrapped)))
-    return obs
+    return kernel.equality_is_structural(repo, "C06-R5")
+
+
+def r8_constructors(repo):
+    """the declarative relation is defined on what the program says (`Foo<Baz<out T>>`): a constructor that rewrites its
+    argument makes the judgement answer about another type"""
+    return kernel.constructors_verbatim(repo, "C06-R8")
 
 
 def r6_transitivity(repo):
@@ -621,7 +598,8 @@ def rules():
         RuleSpec("C06-R4", "bounds are consulted (type variables, wildcards, type constructors)", 5, r4_bounds),
         RuleSpec("C06-R6", "transitivity: the nominal judgement recurses through every supertype", 2, r6_transitivity),
         RuleSpec("C06-R7", "declared variance of the built-in function types", 5, r7_function_types),
-        RuleSpec("C06-R5", "equality of types is structural (is_subtype starts from ==)", 4, r5_structural_equality),
+        RuleSpec("C06-R5", "equality of types is structural (is_subtype starts from ==)", 6, r5_structural_equality),
+        RuleSpec("C06-R8", "type constructors store their arguments as given", 10, r8_constructors),
     ]
 
 
